@@ -810,6 +810,9 @@ func evalActionSet(node *ActionExpression, env *Environment) Object {
 		return val
 	}
 
+	// the assigned value is a copy: a value read from another path must not stay shared with it
+	val = copyObject(val)
+
 	id, ok := node.Left.(*Identifier)
 	if ok {
 		// We need to validate left hand side is not a keyword
@@ -1053,4 +1056,20 @@ func evalUpdateExpressions(exps []Expression, env *Environment) []Object {
 	}
 
 	return result
+}
+
+// copyObject returns an independent copy of a value object (sets, lists and maps are mutable)
+func copyObject(obj Object) Object {
+	if obj == nil || isUndefined(obj) || !dynamodbTypes[obj.Type()] {
+		return obj
+	}
+
+	item := obj.ToDynamoDB()
+
+	copied, err := MapToObject(&item)
+	if err != nil {
+		return obj
+	}
+
+	return copied
 }
